@@ -5,9 +5,11 @@ Outcome type shared by every model function that mirrors fallible Rust code.
 
 namespace ZipVerif
 
-/-- `std::io::ErrorKind`s the crate produces or forwards. -/
+/-- `std::io::ErrorKind`s the crate produces or forwards.  `interrupted` is never produced by the crate or by a
+`Cursor`; a faulty device can fail with it, and it is the one kind std's loops (`read_exact`, `write_all`,
+`read_to_end`, `io::copy`) do not forward but retry (`Model/IO.lean`, `M.retried`). -/
 inductive IoKind
-  | unexpectedEof | other | brokenPipe | invalidData | invalidInput | writeZero | injected
+  | unexpectedEof | other | brokenPipe | invalidData | invalidInput | writeZero | injected | interrupted
   deriving DecidableEq, Repr, Inhabited
 
 /-- `ZipError`, with message strings dropped except for the documented password-required case. -/
@@ -59,6 +61,7 @@ def className : ZErr → String
   | .io .invalidInput => "err io:invalidinput"
   | .io .writeZero => "err io:writezero"
   | .io .injected => "err io:injected"
+  | .io .interrupted => "err io:interrupted"
   | .invalidArchive => "err invalid"
   | .unsupportedArchive => "err unsupported"
   | .passwordRequired => "err passwordrequired"
